@@ -671,6 +671,44 @@ Qed.
 Lemma reopen_view s k : view_session (reopen sk s) k = view_file sk s k.
 Proof. unfold view_session, view_file. now rewrite mget_reopen. Qed.
 
+(* ---- a link: cg_link_write appends to the file only; read again, the state is the one a creation in both places gives *)
+Lemma link_reopen_eq s k nm p : file_has nm (p_file s) = false ->
+  reopen sk (fst (link_new s k nm p)) = reopen sk (fst (fst (append_new s k nm p))).
+Proof. intros H. unfold link_new, append_new. rewrite H. reflexivity. Qed.
+
+Lemma link_sound s t k nm p :
+  Inv s -> Rel s t -> kok k = true ->
+  snd (step sk disp s (OLink k nm p)) = snd (i_step t (OLink k nm p)) /\
+  Inv (fst (step sk disp s (OLink k nm p))) /\ Rel (fst (step sk disp s (OLink k nm p))) (fst (i_step t (OLink k nm p))).
+Proof.
+  intros I R Hk. unfold step.
+  destruct (file_has nm (p_file s)) eqn:Hh.
+  - (* the name is taken: the database refuses, nothing changes *)
+    unfold link_new. rewrite Hh. cbn [fst snd].
+    apply file_has_true in Hh. apply in_map_iff in Hh. destruct Hh as [x [Ex Hx]].
+    assert (Hg : i_get nm t = Some (f_kind x, f_pay x)).
+    { apply R. exists (f_id x). rewrite <- Ex. now rewrite <- fnode_eta. }
+    simpl. rewrite Hg. cbn [fst snd]. split; auto. split; [now apply reopen_sound|]. intros nm' k' p'. simpl. apply R.
+  - assert (Hg : i_get nm t = None).
+    { destruct (i_get nm t) as [[k' p']|] eqn:G; auto. apply R in G. destruct G as [id G].
+      assert (Ht : file_has nm (p_file s) = true).
+      { apply file_has_true. apply in_map_iff. exists (mkF id k' nm p'). auto. }
+      congruence. }
+    assert (Hst : snd (i_step t (OWrite k nm p)) = 0) by (simpl; now rewrite Hg).
+    assert (F : find_slot nm (mget k (p_mir s)) = None).
+    { apply find_slot_none. intros H. apply in_map_iff in H. destruct H as [sl [Es Hs]].
+      assert (Ht : file_has nm (p_file s) = true).
+      { apply file_has_true. apply in_map_iff. exists (mkF (s_id sl) k nm (s_pay sl)). split; auto.
+        apply (inv_sync _ I). rewrite <- Es. now rewrite <- slot_eta. }
+      congruence. }
+    pose proof (append_sound s t k nm p I R Hk Hst F) as AS.
+    pose proof (link_reopen_eq s k nm p Hh) as E.
+    unfold link_new in *. rewrite Hh in *. cbn [fst snd] in *.
+    destruct (append_new s k nm p) as [[s' st'] idx]. cbn [fst snd] in E. destruct AS as [_ [I' R']].
+    rewrite E. simpl. rewrite Hg. cbn [fst snd]. split; auto. split; [now apply reopen_sound|].
+    intros nm' k' p'. simpl. apply R'.
+Qed.
+
 (* ------------------------------------------------------------------------------------------------ histories *)
 (* the operations of the history are within scope: kinds for which the dispatcher is sound, names that are not reserved *)
 Definition ops_ok (ops : list op) : Prop := Forall (fun o => op_names_ok kok nok o = true) ops.
@@ -688,7 +726,7 @@ Lemma step_sound s t o :
   write_succeeds t o ->
   snd (step sk disp s o) = snd (i_step t o) /\ Inv (fst (step sk disp s o)) /\ Rel (fst (step sk disp s o)) (fst (i_step t o)).
 Proof.
-  intros I R D Hn Hw. destruct o as [k nm p|k nm p|nm|].
+  intros I R D Hn Hw. destruct o as [k nm p|k nm p|nm| |k nm p].
   - simpl in Hn. apply andb_prop in Hn. destruct Hn as [Hk Hnm].
     pose proof (write_sound s t k nm p I R Hk Hw) as H.
     unfold step. destruct (write s k nm p) as [[s' st] idx]. destruct H as [-> [? ?]]. cbn [fst snd].
@@ -700,6 +738,7 @@ Proof.
   - pose proof (delete_sound s t nm I R D Hn) as H. unfold step.
     destruct (delete disp s nm) as [s' st]. simpl in *. tauto.
   - simpl. split; auto. split; [now apply reopen_sound|]. intros nm k p. simpl. apply R.
+  - simpl in Hn. apply andb_prop in Hn. destruct Hn as [Hk Hnm]. now apply link_sound.
 Qed.
 
 Lemma run_cons s o r : run sk disp s (o :: r) =
@@ -744,11 +783,15 @@ Qed.
 
 (* an operation on one name leaves every other name's payload as it was, in both views *)
 Definition op_name (o : op) : option string :=
-  match o with OWrite _ nm _ | OUpdate _ nm _ => Some nm | ODelete nm => Some nm | OReopen => None end.
+  match o with OWrite _ nm _ | OUpdate _ nm _ | OLink _ nm _ => Some nm | ODelete nm => Some nm | OReopen => None end.
 
 Lemma i_step_frame t o nm' : op_name o <> Some nm' -> i_get nm' (fst (i_step t o)) = i_get nm' t.
 Proof.
-  destruct o as [k nm p|k nm p|nm|]; intros H; auto.
+  destruct o as [k nm p|k nm p|nm| |k nm p]; intros H; auto.
+  4:{ assert (Hn : nm <> nm') by (simpl in H; congruence).
+      assert (Hs : i_get nm' (i_set nm (k, p) t) = i_get nm' t).
+      { rewrite i_get_set. destruct (String.eqb nm nm') eqn:E; auto. apply seqb_eq in E. congruence. }
+      unfold i_step. destruct (i_get nm t) as [[k' q]|]; cbn [fst]; auto. }
   - assert (Hn : nm <> nm') by (simpl in H; congruence).
     assert (Hs : i_get nm' (i_set nm (k, p) t) = i_get nm' t).
     { rewrite i_get_set. destruct (String.eqb nm nm') eqn:E; auto. apply seqb_eq in E. congruence. }
@@ -773,6 +816,31 @@ Proof.
   rewrite !Inv_views_agree; auto.
   rewrite (Rel_view_file _ _ I' R'), (Rel_view_file _ _ I R). unfold i_view.
   rewrite i_step_frame; auto.
+Qed.
+
+(* ---- the identity of a link survives every edit of its siblings and every cg_close + cg_open (with or without the rewrite
+   of the file that compress-on-close performs: [reopen]) *)
+Lemma i_run_frame ops : forall t nm', Forall (fun o => op_name o <> Some nm') ops ->
+  i_get nm' (fst (i_run t ops)) = i_get nm' t.
+Proof.
+  induction ops as [|o r IH]; intros t nm' H; [reflexivity|].
+  inversion H; subst. rewrite i_run_cons. cbn [fst]. rewrite IH; auto. now apply i_step_frame.
+Qed.
+
+Theorem link_survives ops s0 t0 k nm p :
+  Inv s0 -> Rel s0 t0 -> disp_ok -> ops_ok (OLink k nm p :: ops) -> writes_ok t0 (OLink k nm p :: ops) ->
+  i_get nm t0 = None -> Forall (fun o => op_name o <> Some nm) ops ->
+  let s := fst (run sk disp s0 (OLink k nm p :: ops)) in
+  vlookup nm (view_session s k) = Some p /\ vlookup nm (view_file sk s k) = Some p /\
+  vlookup nm (view_session (reopen sk s) k) = Some p.
+Proof.
+  intros I R D Ho Hw Hfree Hops.
+  destruct (content_agree (OLink k nm p :: ops) s0 t0 I R D Ho Hw) as [_ [Hs [Hf [Hr _]]]].
+  cbv zeta in *.
+  assert (Hi : i_view (fst (i_run t0 (OLink k nm p :: ops))) k nm = Some p).
+  { unfold i_view. rewrite i_run_cons. cbn [fst]. rewrite i_run_frame; auto.
+    simpl. rewrite Hfree. cbn [fst]. rewrite i_get_set. rewrite seqb_refl. now rewrite seqb_refl. }
+  rewrite Hr. rewrite Hs, Hf. auto.
 Qed.
 
 (* every state has an ideal tree it agrees with: the file itself *)
@@ -894,7 +962,8 @@ Lemma step_order s t o :
   write_succeeds t o ->
   order_safe s o = true -> OrdInv (fst (step sk disp s o)).
 Proof.
-  intros I R O D US Hn Hw Hs. destruct o as [k nm p|k nm p|nm|]; [| | |apply OrdInv_reopen].
+  intros I R O D US Hn Hw Hs. destruct o as [k nm p|k nm p|nm| |k nm p]; [| | |apply OrdInv_reopen|].
+  4:{ unfold step. destruct (link_new s k nm p) as [s' st]. apply OrdInv_reopen. }
   - (* write *)
     simpl in Hn. apply andb_prop in Hn. destruct Hn as [Hk _].
     assert (Hgoal : OrdInv (fst (fst (write s k nm p)))).
@@ -1224,6 +1293,24 @@ Proof. vm_compute. repeat split; reflexivity. Qed.
 
 (* non-vacuity: a history with creations, an overwrite of the last sibling, deletions at the front and a reopen
    satisfies every hypothesis of the theorems, and its session view is what one expects *)
+(* cg_link_write alone: the file has the link, the session does not list it until the file is read again *)
+Lemma link_invisible_in_session :
+  let s := fst (link_new (fst (fst (write empty_parent K_SOL "S1" 3))) K_SOL "L1" (-1)) in
+  view_session s K_SOL = [("S1", 3)] /\ view_file no_sort s K_SOL = [("S1", 3); ("L1", -1)] /\
+  view_session (reopen no_sort s) K_SOL = [("S1", 3); ("L1", -1)] /\
+  (* ... and deleting it by name in the same session removes the node and reports an error (no slot to shift) *)
+  snd (delete all_shift s "L1") = 1 /\ view_file no_sort (fst (delete all_shift s "L1")) K_SOL = [("S1", 3)].
+Proof. vm_compute. repeat split; reflexivity. Qed.
+
+(* an array loaded at open and then rewritten in place WITHOUT refreshing the loaded copy: session and file disagree *)
+Lemma stale_cache_diverges :
+  let s0 := reopen no_sort (fst (fst (write empty_parent "DataArray_t" "A1" 5))) in
+  let s := fst (fst (write_inplace_stale s0 "DataArray_t" "A1" 7)) in
+  view_session s "DataArray_t" = [("A1", 5)] /\ view_file no_sort s "DataArray_t" = [("A1", 7)] /\
+  (* what [write_inplace] (the copy is refreshed, or there is none) gives instead *)
+  view_session (fst (fst (write_inplace s0 "DataArray_t" "A1" 7))) "DataArray_t" = [("A1", 7)].
+Proof. vm_compute. repeat split; reflexivity. Qed.
+
 Definition sample_history : list op :=
   [OWrite K_SOL "A" 1; OWrite K_DISC "D" 9; OWrite K_SOL "B" 2; OWrite K_SOL "C" 3; OWrite K_SOL "C" 30;
    ODelete "A"; OReopen; OWrite K_SOL "E" 5; ODelete "D"; ODelete "nosuch"; OUpdate K_SOL "B" 20].
